@@ -134,7 +134,7 @@ def replay(d):
                 if not (len(res.block) == nlist and len(res.blocklist) == nlist):
                     extra_bad.append(('blocks', 'renaming lost a block: %d names in the lookup, %d blocks in the list' % (len(res.block), len(res.blocklist))))
             elif op == 'minc':
-                blks = None if a['blocks'] is None else [d['pre']['bnames'][i] for i in a['blocks']]
+                blks = None if a['blocks'] is None else [(blocks[i] if a.get('as_objects') else d['pre']['bnames'][i]) for i in a['blocks']]
                 g.minc(list(a['fractions']), spacing=a['spacing'], num_fracture_planes=a['nfp'], blocks=blks)
             elif op in ('add', 'embed'):
                 g2, blocks2, rocks2, cons2 = build(T, a['other'])
@@ -145,6 +145,15 @@ def replay(d):
                     res = g.embed(g2, T.t2connection([blocks[a['host']], blocks2[a['sub']]]))
                     if res is None: return False, 'embed refused (returned None)'
             elif op == 'check_fix': g.check(fix=True, silent=True)
+            elif op == 'sort_rocktypes': g.sort_rocktypes()
+            elif op == 'fromgeo':
+                import mulgrids
+                geo = mulgrids.mulgrid().rectangular([float(num(x)) for x in a['dx']], [float(num(x)) for x in a['dy']],
+                                                     [float(num(x)) for x in a['dz']], atmos_type=a['atmos_type'])
+                res = T.t2grid().fromgeo(geo)
+                if a.get('then') == 'reorder':
+                    res.reorder([b.name for b in res.blocklist][::-1],
+                                [tuple(b.name for b in con.block)[::-1] for con in res.connectionlist][::-1])
             else:
                 return False, 'unknown op %r' % op
     except Exception as ex:
